@@ -292,13 +292,13 @@ Definition form_args (S : schema) (vars : list (nat * value)) (fid : nat) (fd : 
   let missing := filter (fun d => is_nonnull (a_type d) && negb (existsb (Nat.eqb (a_name d)) given)) (f_args fd) in
   (m, ea ++ map (fun d => mkErr [] (LNode fid) EMissingArg) missing).
 
-(* field.sortArgs: only when the container is an *Object that has the field *)
+(* field.sortArgs: when the container is an *Object or an *Interface that has the field *)
 Definition sort_args (S : schema) (t : nat) (name : nat) (args : list arg) : list (option arg) * list err :=
   match args with
   | [] => ([], [])
   | _ =>
       match lookup t S with
-      | Some (DObject fs _) =>
+      | Some (DObject fs _) | Some (DInterface fs) =>
           match find_field name fs with
           | Some fd =>
               let sorted := map (fun d => find (fun av => Nat.eqb (fst av) (a_name d)) args) (f_args fd) in
